@@ -195,6 +195,31 @@ def check_pairing(ctx, rule, qual, fn, var, st, block, i, amount):
         cur_block, cur = block, st
         while guard is None:
             owner = mod.parents.get(id(cur))
+            if isinstance(owner, ast.Try) and any(x is cur for x in owner.body):
+                # the event sits in a try body; accounting may follow the whole try statement (the handlers leave the loop)
+                gp = mod.parents.get(id(owner))
+                outer = None
+                for field in ('body', 'orelse', 'finalbody'):
+                    lst = getattr(gp, field, None)
+                    if isinstance(lst, list) and any(x is owner for x in lst):
+                        outer = lst
+                handlers_leave = all(h.body and isinstance(h.body[-1], (ast.Break, ast.Return, ast.Raise, ast.Continue)) for h in owner.handlers)
+                if outer is None or not handlers_leave or owner.finalbody:
+                    break
+                j = [k for k, x in enumerate(outer) if x is owner][0]
+                tail_in_try = owner.body[[k for k, x in enumerate(owner.body) if x is cur][0] + 1:]
+                if any(isinstance(x, (ast.For, ast.While)) for x in tail_in_try):
+                    break
+                for nxt in outer[j + 1:]:
+                    if isinstance(nxt, ast.If) and is_truthy_guard(nxt.test, var):
+                        guard = nxt
+                        break
+                    if isinstance(nxt, (ast.For, ast.While)):
+                        break
+                if guard is not None:
+                    break
+                cur = owner
+                continue
             if not isinstance(owner, ast.If) or not any(x is cur for x in owner.body + owner.orelse):
                 break
             gp = mod.parents.get(id(owner))
